@@ -6,6 +6,7 @@ deliberately repeated so that later calls meet what earlier calls left behind.  
 (cache_clear at seeded points), cache-size knob, rejected inputs.  Oracles: exact rational linear algebra
 (R3) per call + differential "same call in a pristine process" (bit-identical).
 """
+import json
 import math
 import os
 import sys
@@ -227,6 +228,7 @@ def gen(prop, stream, tier, avoid):
                 ("reject", kn.uniform(0.0, 0.2))]
     ops = []
     perturb_p = kn.pick([0.0, 0.2, 0.5])
+    held_p = kn.pick([0.0, 0.25, 0.5])
     for _ in range(nops):
         if rng.chance(knobs["clear_p"]):
             ops.append({"op": "cache_clear", "which": rng.pick(["identity", "binomial", "both"])})
@@ -241,9 +243,25 @@ def gen(prop, stream, tier, avoid):
                     a, mclass, n = cand
             if "breakdown" in avoid and mclass == "breakdown":
                 a, mclass = _dominant(rng, n), "dominant"
-            op = {"op": r, "A": a, "mclass": mclass, "n": n}
+            op = {"op": r, "A": a, "mclass": mclass, "n": n, "uid": len(ops)}
+            if prev and rng.chance(held_p):
+                # the caller keeps its matrix in a variable and hands the same object to another routine (or the same one again)
+                plain_ok = ("dominant", "colloc", "general")
+                # (a matrix prepared for a pivoting routine may need row exchanges whatever its label says: the plain routines only
+                # take over matrices that were prepared for a plain routine, or dominant / collocation ones)
+                cands = [o for o in prev[-4:] if o.get("uid") is not None and o["mclass"] != "breakdown" and
+                         (r in ("lu_factor", "matrix_inverse", "matrix_determinant", "matrix_pivot") or o["mclass"] in ("dominant", "colloc") or
+                          (o["mclass"] in plain_ok and o["op"] in ("lu_solve", "lu_decomposition") and o.get("held_from") is None))]
+                if cands:
+                    po = rng.pick(cands)
+                    op.update(A=json.loads(json.dumps(po["A"])), mclass=po["mclass"], n=po["n"], held_from=po["uid"])
+                    n = po["n"]
             if r in ("lu_solve", "lu_factor"):
                 op["b"] = _rhs(rng, n)
+                if op.get("held_from") is not None and rng.chance(0.5):
+                    pb = next((o for o in prev if o.get("uid") == op["held_from"] and "b" in o), None)
+                    if pb is not None:
+                        op["b"], op["held_b"] = json.loads(json.dumps(pb["b"])), True
             if r == "matrix_pivot":
                 op["sign"] = rng.chance(0.5)
             ops.append(op)
@@ -376,10 +394,22 @@ def _call(op):
     raise KeyError(k)
 
 
-def _outcome(op):
+def _outcome(op, held=None):
+    """held: {uid: {"A": obj, "b": obj}} - the argument objects the simulated caller still holds from earlier calls; an op
+    with "held_from" passes the very same objects again (a caller that keeps its matrix in a variable)."""
     import copy
+    call = copy.deepcopy(op)
+    if held is not None:
+        src = held.get(op.get("held_from"))
+        if src is not None:
+            if "A" in call and src.get("A") is not None:
+                call["A"] = src["A"]
+            if "b" in call and op.get("held_b") and src.get("b") is not None:
+                call["b"] = src["b"]
+        if op.get("uid") is not None:
+            held[op["uid"]] = {"A": call.get("A"), "b": call.get("b")}
     try:
-        return ("ok", repr(_call(copy.deepcopy(op))))
+        return ("ok", repr(_call(call)))
     except Exception as e:  # noqa
         return ("exc", type(e).__name__)
 
@@ -444,6 +474,7 @@ def run(script, ctx):
     ops = script["ops"]
     fresh = _pristine_outcomes(ops)
     swapped_sizes = set()
+    held = {}
     L = _linalg
     for idx, op in enumerate(ops):
         ctx.step = idx
@@ -495,7 +526,9 @@ def run(script, ctx):
             ctx.ops_executed += 1
             continue
 
-        kind, val = _outcome(op)
+        if op.get("held_from") is not None and op["held_from"] in held:
+            ctx.probe("caller_passes_the_same_matrix_object_again")
+        kind, val = _outcome(op, held)
         ctx.ops_executed += 1
         ctx.log(k, op.get("mclass"), op.get("n"), kind, val if kind == "exc" else None)
         mclass = op.get("mclass", "-")
